@@ -4,6 +4,7 @@ import (
 	"encoding/json"
 	"fmt"
 	"math/rand"
+	"strings"
 	"unicode"
 
 	"github.com/emersion/go-webdav/verifharness/doubles"
@@ -16,25 +17,30 @@ type nameSet struct {
 	id     string
 	prefix []Name // up to 3 segments
 	lay    Layout // names only; slash style and collection count come from the layout style
+	shared []Shared
 }
 
 var nameSets = []nameSet{
 	{"plain", []Name{"dav", "v1", "x"}, Layout{
 		User: "alice", HS: "calendars", OtherUser: "alice2", OtherHS: "contacts", NewColl: "newcoll", NewObj: "new.ics", Deeper: "deeper",
-		Colls: []Coll{{"work", []Name{"ev1.ics", "ev2.ics"}}, {"home", nil}, {"work2", []Name{"a"}}}}},
+		Colls: []Coll{{"work", []Name{"ev1.ics", "ev2.ics"}}, {"home", nil}, {"work2", []Name{"a"}}}},
+		[]Shared{{"other-user", "team", []Name{"t1.ics"}}, {"sibling", "family", nil}, {"other-both", "board", []Name{"b"}}}},
 	{"hostile", []Name{"d v", "50%", "ü.日"}, Layout{
 		User: "al ice@ex.org", HS: "c%61l?", OtherUser: "bo#b", OtherHS: "...", NewColl: "n&w <c>", NewObj: "né w%2F.ics", Deeper: ".d",
-		Colls: []Coll{{"w#rk;1", []Name{"e?1 .ics", "%zz"}}, {"h\tme", nil}, {"😀", []Name{"a+b=c"}}}}},
+		Colls: []Coll{{"w#rk;1", []Name{"e?1 .ics", "%zz"}}, {"h\tme", nil}, {"😀", []Name{"a+b=c"}}}},
+		[]Shared{{"sibling", "sh ared%", []Name{"o?"}}, {"other-user", "té#m", []Name{"x y"}}, {"other-both", "&;=", nil}}},
 	// The other user and the other home set differ from the own ones in
 	// letter case only (paths are case-sensitive: they are other resources).
 	{"case", []Name{"Dav", "dav", "DAV"}, Layout{
 		User: "alice", HS: "Calendars", OtherUser: "Alice", OtherHS: "calendars", NewColl: "Work", NewObj: "EV1.ics", Deeper: "deeper",
-		Colls: []Coll{{"work", []Name{"ev1.ics", "Ev1.ics"}}, {"WORK", nil}, {"wOrk", []Name{"a"}}}}},
+		Colls: []Coll{{"work", []Name{"ev1.ics", "Ev1.ics"}}, {"WORK", nil}, {"wOrk", []Name{"a"}}}},
+		[]Shared{{"other-user", "Team", []Name{"ev1.ics"}}, {"sibling", "team", nil}, {"other-both", "TEAM", []Name{"a"}}}},
 	// Every segment is the same string: the arithmetic may not confuse the
 	// prefix with what lies below it.
 	{"repeat", []Name{"a", "a", "a"}, Layout{
 		User: "a", HS: "a", OtherUser: "aa", OtherHS: "a.", NewColl: "a a", NewObj: "a'", Deeper: "a",
-		Colls: []Coll{{"a", []Name{"a", "a.a"}}, {"a%", nil}, {"a;", []Name{"a"}}}}},
+		Colls: []Coll{{"a", []Name{"a", "a.a"}}, {"a%", nil}, {"a;", []Name{"a"}}}},
+		[]Shared{{"other-both", "aa", []Name{"a"}}, {"other-user", "a=", nil}, {"sibling", "a~", []Name{"a", "aa"}}}},
 }
 
 // layout styles: how the backend spells its paths and how many collections.
@@ -42,17 +48,24 @@ type layStyle struct {
 	id                     string
 	pslash, hslash, cslash bool
 	ncoll                  int
+	nshared                int // collections of the user's listing that live outside the home set
 }
 
+// The first nFull styles get every request form; the styles after them only
+// the forms with teeth (lightForms), and the cells of their own.
+const nFull = 3
+
 var layStyles = []layStyle{
-	{"slashes", true, true, true, 2},
-	{"no-slashes", false, false, false, 1},
-	{"mixed", true, false, true, 3},
+	{"slashes", true, true, true, 2, 0},
+	{"no-slashes", false, false, false, 1, 0},
+	{"mixed", true, false, true, 3, 0},
+	{"elsewhere", false, true, true, 2, 3},
 }
 
 func mkLayout(ns *nameSet, st *layStyle) Layout {
 	l := ns.lay
 	l.Colls = append([]Coll(nil), ns.lay.Colls[:st.ncoll]...)
+	l.Shared = append([]Shared(nil), ns.shared[:st.nshared]...)
 	l.PSlash, l.HSlash, l.CSlash = st.pslash, st.hslash, st.cslash
 	return l
 }
@@ -71,7 +84,27 @@ var cells = []cell{
 	{5, "own"},
 }
 
+// sharedCells exist in layouts with collections outside the home set.
+var sharedCells = []cell{{3, "shared"}, {4, "shared"}}
+
 type reqForm struct{ method, form, depth string }
+
+// lightForms: the rows with teeth, for the layout styles after the full ones.
+func lightForms() []reqForm {
+	l := []reqForm{{"MKCOL", "empty", ""}, {"DELETE", "", ""}, {"GET", "", ""}, {"PUT", "none", ""}, {"OPTIONS", "", ""}, {"REPORT", "query", ""}, {"REPORT", "multiget", ""}}
+	for _, f := range []string{"allprop", "prop"} {
+		for _, d := range []string{"0", "1", "infinity"} {
+			l = append(l, reqForm{"PROPFIND", f, d})
+		}
+	}
+	return l
+}
+
+// oddForms are the request forms repeated under non-canonical spellings of
+// the request path (judgeOdd has rules for them).
+var oddForms = []reqForm{
+	{"MKCOL", "empty", ""}, {"PROPFIND", "prop", "1"}, {"DELETE", "", ""}, {"MKCALENDAR", "body", ""},
+}
 
 func reqForms() []reqForm {
 	l := []reqForm{
@@ -231,6 +264,29 @@ func randCase(r *rand.Rand) Case {
 	if l.NewObj == "" {
 		l.NewObj = "new"
 	}
+	if r.Intn(4) == 0 {
+		// collections of the user's listing that live outside the home set
+		used := map[Name]bool{l.NewColl: true}
+		for _, c := range l.Colls {
+			used[c.Name] = true
+		}
+		for i, n := 0, 1+r.Intn(2); i < n; i++ {
+			sh := Shared{Where: sharedWheres[r.Intn(len(sharedWheres))], Name: randName(r)}
+			for used[sh.Name] {
+				sh.Name += randName(r)
+			}
+			used[sh.Name] = true
+			for _, o := range distinctNames(r, r.Intn(3)) {
+				if o != l.NewObj {
+					sh.Objs = append(sh.Objs, o)
+				}
+			}
+			if i == 0 && len(sh.Objs) == 0 {
+				sh.Objs = []Name{l.NewObj + "1"}
+			}
+			l.Shared = append(l.Shared, sh)
+		}
+	}
 	l.Deeper = randName(r)
 	l.PSlash, l.HSlash, l.CSlash = r.Intn(2) == 0, r.Intn(2) == 0, r.Intn(2) == 0
 	if r.Intn(60) == 0 {
@@ -241,6 +297,9 @@ func randCase(r *rand.Rand) Case {
 	if r.Intn(5) == 0 {
 		cs.Kind = "chain"
 		cs.Entry = entries[r.Intn(len(entries))]
+		if r.Intn(4) == 0 {
+			cs.ReuseSeed = 1 + r.Int63n(1<<40)
+		}
 		return cs
 	}
 	cs.Kind = "req"
@@ -260,9 +319,18 @@ func randCase(r *rand.Rand) Case {
 	if cs.Level == 5 {
 		cs.Level += r.Intn(3)
 	}
+	if len(l.Shared) > 0 && r.Intn(4) == 0 {
+		cs.Level, cs.Target = 3+r.Intn(2), "shared"
+	}
 	cs.Slash = r.Intn(2) == 0
 	if r.Intn(3) == 0 {
 		cs.Spelling = spellings[r.Intn(len(spellings))]
+	} else if r.Intn(5) == 0 {
+		cs.Odd, cs.OddAt = oddKinds[r.Intn(len(oddKinds))], r.Intn(len(cs.Prefix)+cs.Level+1)
+		if r.Intn(2) == 0 {
+			of := oddForms[r.Intn(len(oddForms))]
+			cs.Method, cs.Form, cs.Depth = of.method, of.form, of.depth
+		}
 	}
 	if r.Intn(4) == 0 {
 		cs.Shape = doubles.BodyShapes[r.Intn(len(doubles.BodyShapes))]
@@ -284,8 +352,9 @@ func execCase(c *fw.Ctx, cs *Case) {
 func run(c *fw.Ctx) {
 	idx := 0
 	forms := reqForms()
-	nStruct, nChain, nSpell, nMulti, nOpen, nShape := 0, 0, 0, 0, 0, 0
+	nStruct, nChain, nSpell, nMulti, nOpen, nShape, nOdd := 0, 0, 0, 0, 0, 0, 0
 	oforms := openForms()
+	lforms := lightForms()
 	// Structural product, enumerated completely in both tiers.
 	for _, server := range []string{"caldav", "carddav"} {
 		for nsi := range nameSets {
@@ -298,17 +367,43 @@ func run(c *fw.Ctx) {
 							if c.Mine(idx) {
 								cs := base
 								cs.Kind, cs.Entry = "chain", e
+								// every chain goes on to reuse its client
+								cs.ReuseSeed = int64(nChain + 1)
 								execChain(c, &cs)
 							}
 							idx++
 							nChain++
 						}
-						for _, cl := range cells {
+						myCells, myForms := cells, forms
+						if sti >= nFull {
+							myCells, myForms = append(append([]cell(nil), cells...), sharedCells...), lforms
+						}
+						for _, cl := range myCells {
+							// Non-canonical spellings of the request path: one
+							// redundant piece at every position of the path, one
+							// layout style per (name set, prefix).
+							if sti == (nsi+plen+1)%len(layStyles) {
+								for _, f := range oddForms {
+									for _, kind := range oddKinds {
+										for at := 0; at <= plen+cl.level; at++ {
+											if c.Mine(idx) {
+												cs := base
+												cs.Kind, cs.Method, cs.Form, cs.Depth = "req", f.method, f.form, f.depth
+												cs.Level, cs.Target, cs.Slash = cl.level, cl.target, (at+cl.level)%2 == 0
+												cs.Odd, cs.OddAt = kind, at
+												execReq(c, &cs)
+											}
+											idx++
+											nOdd++
+										}
+									}
+								}
+							}
 							for _, slash := range []bool{false, true} {
 								if cl.level == 0 && plen == 0 && !slash {
 									continue // the empty prefix's root has one spelling, "/"
 								}
-								for _, f := range forms {
+								for _, f := range myForms {
 									if c.Mine(idx) {
 										cs := base
 										cs.Kind, cs.Method, cs.Form, cs.Depth = "req", f.method, f.form, f.depth
@@ -318,7 +413,7 @@ func run(c *fw.Ctx) {
 									idx++
 									nStruct++
 								}
-								if sti == (nsi+plen+2)%len(layStyles) {
+								if sti == (nsi+plen+2)%nFull {
 									// the open method axis, one layout style per (name set, prefix)
 									for _, f := range oforms {
 										if c.Mine(idx) {
@@ -333,7 +428,7 @@ func run(c *fw.Ctx) {
 								}
 								// The same decoded path under equivalent escapings of
 								// the request target, for the rows with teeth.
-								if (cl.level == 0 && plen == 0) || sti != (nsi+plen+1)%len(layStyles) {
+								if (cl.level == 0 && plen == 0) || sti != (nsi+plen+1)%nFull {
 									continue // "/" has no other spelling; the backend's layout style does not matter here: one per (name set, prefix)
 								}
 								for _, f := range respelledForms {
@@ -384,8 +479,12 @@ func run(c *fw.Ctx) {
 		"%d requests repeat the rows with teeth (%d request forms) under 3 equivalent escapings of the request target (every byte %%XX upper-case, every byte %%xx lower-case, first byte of each segment escaped + sub-delims raw); "+
 		"%d multi-user sessions (one handler, two users from the request context: chains and %d requests alternating A,B, then the same concurrently); "+
 		"%d requests of the open method axis (%d further method tokens, %d forms counting those repeated with a creation-style body, every cell, one layout style per name set and prefix); "+
-		"%d requests repeat %d body-sensitive request forms under the 4 other presentations of the request body (unknown length, one byte per Read with (0, nil) for a zero-length Read, (0, nil) before every delivery, last bytes together with io.EOF)",
-		len(nameSets), len(layStyles), len(cells), len(forms), nStruct, nChain, nSpell, len(respelledForms), nMulti, len(sessionSteps(&Case{})), nOpen, len(openMethods), len(oforms), nShape, len(reshapedForms)))
+		"%d requests repeat %d body-sensitive request forms under the 4 other presentations of the request body (unknown length, one byte per Read with (0, nil) for a zero-length Read, (0, nil) before every delivery, last bytes together with io.EOF); "+
+		"the last layout style (collections of the user's listing outside the home set: in another user's tree, next to the home set, both) gets %d request forms and %d more cells (such a collection and its first object); "+
+		"every discovery chain goes on to reuse its client (4 of 9 unrelated calls to absolute paths, the principal step after each, the other steps at the end); "+
+		"%d requests spell the path non-canonically (%d request forms x {empty segment, '.', 'x/..'} x every position of the path, every cell, one layout style per name set and prefix)",
+		len(nameSets), len(layStyles), len(cells), len(forms), nStruct, nChain, nSpell, len(respelledForms), nMulti, len(sessionSteps(&Case{})), nOpen, len(openMethods), len(oforms), nShape, len(reshapedForms),
+		len(lforms), len(sharedCells), nOdd, len(oddForms)))
 
 	// Random names and random cells on top.
 	n := c.Pick(40000, 600000)
@@ -473,6 +572,36 @@ func post(m *fw.Merged) {
 			missing = append(missing, "request-target spelling "+sp)
 		}
 	}
+	for _, s := range []string{"caldav", "carddav"} {
+		for _, meth := range []string{"MKCOL", "PROPFIND", "DELETE", "MKCALENDAR"} {
+			for _, kind := range oddKinds {
+				for _, where := range []string{"inside the prefix part", "between prefix and first segment", "below the prefix", "after the last segment"} {
+					if k := fmt.Sprintf("%s|%s|%s|%s", s, meth, kind, where); m.Obs["odd_path_requests(judged)"][k] == 0 {
+						missing = append(missing, "odd path spelling "+k)
+					}
+				}
+			}
+		}
+		for _, st := range []string{"principal", "home-set", "collections", "get"} {
+			n := int64(0)
+			for k, v := range m.Obs["reused_client_steps"] {
+				if strings.HasPrefix(k, s+"|"+st+"|") && strings.HasSuffix(k, "|ok") {
+					n += v
+				}
+			}
+			if n == 0 {
+				missing = append(missing, "reused client: "+s+" "+st+" never succeeded")
+			}
+		}
+		if m.Obs["chain_collections_outside_home_set"][s+"|ok"] == 0 {
+			missing = append(missing, "chain with collections outside the home set: "+s+" never succeeded")
+		}
+		for _, l := range []string{"L3", "L4"} {
+			if k := fmt.Sprintf("%s|PROPFIND|%s|shared-exact", s, l); m.Obs["cells_checked"][k] == 0 {
+				missing = append(missing, k)
+			}
+		}
+	}
 	if len(missing) > 0 {
 		m.Inconclusive = append(m.Inconclusive, fmt.Sprintf("C12: judged cells / chain links never observed: %v", missing))
 	}
@@ -502,11 +631,17 @@ func init() {
 			"The rows with teeth are repeated under three equivalent escapings of the request target (the decoded path is identical; RFC 3986 6.2.2). " +
 			"Open method axis: every cell is also sent under further method tokens (MKCALENDAR, MKADDRESSBOOK, MKACTIVITY, BIND, LINK, PATCH, POST, LOCK, ACL, SEARCH, lower-case spellings, made-up tokens, with and without a creation-style body) and judged by backend effect only: whatever the status, the backend is asked to create a collection only by a request at collection depth and for the request path; other mutations must belong to the level addressed. This creation rule holds for every method except MKCOL (own row) and COPY/MOVE (left open). " +
 			"Multi-user family: ONE handler whose backend takes the user from the request context serves users A and B alternately, then concurrently (requests and discovery chains); every request is judged for its own user, and nothing of the other user may show. " +
+			"Layouts with collections outside the home set: a fourth layout style (and one random layout in four) lets the backend list, for the user, collections that live in another user's tree, next to the home set, or both (shared / delegated collections; they sit at collection depth like any other): the chain must return them, the home-set listing must carry them, and they and their objects are cells of their own. " +
+			"Reused-client family: every structural chain (one random chain in four) goes on to use the SAME client object for 4 of 9 unrelated calls to absolute paths (Stat, ReadDir, Open, RemoveAll of the embedded webdav.Client, GetObject) and repeats the principal step after each, the other steps at the end: still exactly the backend's paths. " +
+			"Odd-path family: 4 request forms are repeated with one redundant piece (empty segment, '.', 'x/..') at every position of the request path, the prefix part included. 'Depth below the prefix' has two readings for such a path (depth of the cleaned path; depth of the literal path, which may also not start with the prefix at all): a behaviour is accepted when either reading allows it, and reported when both exclude it - a collection created at collection depth under neither reading (MKCOL there: 403 and no mutation), a mutation that belongs to neither reading's level, a path argument not byte-identical to the request path, resources of the user shown for a foreign principal / home-set path or below object depth. " +
 			"Random part: seeded random hostile segment names (spaces, %, ?, #, unicode, dots, controls, invalid UTF-8), random layouts and random cells (levels up to 7). " +
 			"Oracle: DESIGN.md appendix C (level -> backend operation, path argument byte-identical to the request path); cells the table leaves open are executed and tabulated but not judged. " +
 			"evaluations = requests + client calls judged or tabulated; distinct_nontrivial = distinct (server, method, level, request form, Depth, target relation, slash spellings, prefix length, layout style, name class) of judged cells and chain steps.",
 		Assumptions: []string{
-			"requests lie below the prefix and are spelt canonically: no empty, '.' or '..' segments, no '/' inside a segment (a prefix that is only a string-prefix of the first segment is outside the domain)",
+			"the level -> operation table is applied to requests that lie below the prefix and are spelt canonically: no empty, '.' or '..' segments, no '/' inside a segment (a prefix that is only a string-prefix of the first segment is outside the domain)",
+			"non-canonical spellings (odd-path family): required lookups, hrefs and statuses of the table are not demanded; only what both readings of 'depth below the prefix' exclude is reported. What a PROPFIND of an own principal / home set in an odd spelling shows is left open, as is everything about a path that does not start with the prefix literally - except that no collection may be created there and MKCOL answers 403",
+			"reused-client family: the results (and errors) of the unrelated calls themselves are not judged, only panics; the backend double records a deletion and keeps its layout",
+			"multi-user family: only user A has collections outside the home set (the same placement rule for B could name the same path, one resource of two users)",
 			"no layout path coincides with /.well-known/caldav|carddav (reserved by RFC 6764; the handlers answer it before routing)",
 			"a principal / home-set path that differs from the backend's only by the trailing slash: the lookup must happen, whether the resource is shown is left open",
 			"cells the table marks don't-care (PUT/GET/HEAD/OPTIONS/REPORT off their level, CalDAV DELETE off object level, PROPPATCH/COPY/MOVE/unknown methods everywhere) accept every behaviour; only panics are reported there",
